@@ -401,7 +401,8 @@ Drop(s, order) ==
   /\ LET wasActive == cst[s] = "active"
          \* (the scan that also discards other connections' rules naming the gone unique name only runs when the
          \* disconnecting connection held at least one rule itself)
-         rl2 == IF wasActive /\ rules[s] # <<>> THEN PruneRules(rules, s, uname[s]) ELSE rules
+         \* (a monitor always counts at least one rule -- its filter -- and still carries the unique name it had)
+         rl2 == IF (wasActive /\ rules[s] # <<>>) \/ cst[s] = "monitor" THEN PruneRules(rules, s, uname[s]) ELSE rules
          W0 == World(cst, uname, queue, rl2, [mon EXCEPT ![s] = <<>>])
          d == DropNames(W0, s, order, 1)
          cs2 == [cst EXCEPT ![s] = "absent"]
@@ -459,7 +460,8 @@ BecomeMonitor(s, ser, fl, texts, flags, order) ==
               W0 == [Now EXCEPT !.mn = [mon EXCEPT ![s] = filt]]
               d == DropNames(W0, s, order, 1)
               W1 == [W0 EXCEPT !.qs = d.qs]
-              rl2 == IF rules[s] # <<>> THEN PruneRules(rules, s, uname[s]) ELSE rules
+              \* (the new monitor's filters have been counted as rules by then, so the scan always runs)
+              rl2 == PruneRules(rules, s, uname[s])
               kept == SelectSeq(pend, LAMBDA p : p.caller # s) IN
           /\ queue' = d.qs
           /\ rules' = rl2
@@ -653,7 +655,8 @@ DriverOther(s, m0) ==
                              S_org_freedesktop_DBus_Introspectable, S_org_freedesktop_DBus_Monitoring,
                              S_org_freedesktop_DBus_Debug_Stats} IN
   /\ CanTalk(s) /\ m.dst = BUS
-  /\ IF ~DriverGate(s, m) THEN AnswerErr(s, m, E_AccessDenied)
+  \* (the security check refuses message types it does not know, whoever they are for)
+  /\ IF ~DriverGate(s, m) \/ m.ty \notin 1..4 THEN AnswerErr(s, m, E_AccessDenied)
      ELSE IF m.ty # 1 THEN
           /\ out' = Capture(Now, m, s, NoSlot) \o EavesCopies(Now, s, m, NoSlot)
           /\ UNCHANGED <<act, fdx, cfg, cst, dying, uid, uname, everNames, queue, rules, pend, mon>>
